@@ -13,7 +13,7 @@ ENGINE = {'name': 'udp',
  'shard': 12,
  'serves': ['C09'],
  'rule': 'scenarios: a corpus (handler that never reads then returns while the loop is blocked in its send; 40-datagram burst to a handler that '
-         'returns at once; idle expiry followed by a late Close; idle expiry at the moment closeCh is full (loop blocked on a full readCh, ten associations finishing) followed by a datagram before the old handler returns; read-once handlers followed by later datagrams; four interleaved clients with '
+         'returns at once; a jumbo datagram read in part, Close, other clients\' datagrams, then Read again on the closed association; idle expiry followed by a late Close; idle expiry at the moment closeCh is full (loop blocked on a full readCh, ten associations finishing) followed by a datagram before the old handler returns; read-once handlers followed by later datagrams; four interleaved clients with '
          'jumbo datagrams read through small buffers, scripted and over real loopback sockets; backpressure count) plus random scenarios: 1-4 '
          'client addresses from one of six address sets (differing only in port / IP / IPv6 zone / family / non-UDP type), 2-80 datagrams of 16..9000 bytes in a random interleaving, per-client handler kinds echo / read n '
          'and return / return immediately / stall until released / idle out, optional waits for an association to end; every third random '
@@ -32,7 +32,7 @@ ENGINE = {'name': 'udp',
               'not modelled: SetReadDeadline arithmetic (C05), udpBufPool buffer identity (C08), what handlers do with the bytes, zero-length datagrams '
               '(Read returns io.EOF for them without notifying the loop)'],
  'assumptions': ['Go scheduler = arbitrary interleaving of the model\'s atomic steps (channel operations, one Close statement at a time)',
-                 'a handler calls Close once (Server.handle does), Read and Close may overlap',
+                 'a handler calls Close once in the model (a second Close, e.g. Server.handle\'s deferred one after a handler closed the connection itself, only notifies again), Read and Close may overlap and Read may follow Close',
                  'datagram identities in an execution are distinct (the engine numbers them)',
                  'a client address is an opaque key in the model: two net.Addr values are the same client iff their String() is equal (the engine uses address sets whose members differ only in port, only in IP, only in IPv6 zone, in family, or that are not *net.UDPAddr at all, and gives one client both byte forms of an IPv4 address)',
                  'liveness is not claimed: a handler that stops reading blocks the loop after cap(readCh)+1+cap(packets)+1 datagrams (measured by the backpressure case)']}
